@@ -1222,19 +1222,26 @@ Section HttpPreload.
   Variable DI : nat -> nat -> dstate -> Prop.
   Hypothesis K : contract (dec_step k) es cD 0 1 DI.
   Hypothesis Hn : es <> [].
+  Variable ch : list nat.
+  Hypothesis Hsrc : filter (chosenb ch) es <> [].
 
   Local Notation n := (length es).
-  Local Notation B := (bound lim pas (length es)).
-  Local Notation cf := (cfg0 lim pas).
+  Local Notation src := (filter (chosenb ch) es).
+  Local Notation n' := (length (filter (chosenb ch) es)).
+  Local Notation B := (bound lim pas (length (filter (chosenb ch) es))).
+  Local Notation cf := {| limit := lim; passes := pas; chosen := ch |}.
 
   Definition R_pre (a m : nat) (s : hstate) : Prop :=
     (a = 0 /\ exists d acc a' md,
         s = HLoad d acc /\ DI a' md d /\ acc = cyc_prefix es a' /\ a' <= n
         /\ (n - a') * (cD + 1) + md + 2 <= m)
-    \/ (s = HPre es a /\ le_opt a B).
+    \/ (s = HPre src a /\ le_opt a B).
 
   Lemma Hlen_pre : 0 < n.
   Proof. unfold n. destruct es; [congruence|cbn; lia]. Qed.
+
+  Lemma Hlen_src : 0 < n'.
+  Proof. destruct (filter (chosenb ch) es); [congruence|cbn; lia]. Qed.
 
   Lemma bound_load a' : bound 0 1 (length es) = Some a' -> a' = n.
   Proof. unfold bound. intros H. injection H as <-. unfold n. lia. Qed.
@@ -1261,33 +1268,33 @@ Section HttpPreload.
       + destruct (k_err _ _ _ _ _ _ K _ _ _ _ _ HI Ed) as [(_ & ->)|(HB & He)]; [discriminate|].
         apply bound_load in HB. subst a'.
         destruct He as [(_ & He)| ->]; [congruence|].
-        cbn [chosen cf cfg0] in Hs. rewrite filter_all_chosen in Hs.
-        rewrite Hacc in Hs. unfold n in Hs. rewrite cyc_prefix_full in Hs.
-        rewrite match_nonempty in Hs by exact Hn.
+        cbn [chosen] in Hs. rewrite Hacc, cyc_prefix_full in Hs.
+        change (filter (fun e => is_chosen (e_tag e) ch) es) with src in Hs.
+        rewrite match_nonempty in Hs by exact Hsrc.
         injection Hs as <-. exists 0. split; [lia|]. right. split; [reflexivity|].
-        unfold B, bound, le_opt. destruct lim, pas; lia.
+        unfold bound, le_opt. destruct lim, pas; lia.
     - cbn [http_step] in Hs. destruct cc; [discriminate|].
-      rewrite match_len_pos in Hs by exact Hlen_pre.
-      cbn [limit passes cf cfg0] in Hs.
+      rewrite match_len_pos in Hs by exact Hlen_src.
+      cbn [limit passes] in Hs.
       destruct (nz pas && _); [discriminate|]. destruct (nz lim && _); [discriminate|].
-      destruct (nth_error es _); discriminate.
+      destruct (nth_error src _); discriminate.
   Qed.
 
   Lemma pre_emit a m s e s' :
     R_pre a m s -> http_step k cf es false s = Emit e s' ->
-    below a B /\ e = cyc es a /\ R_pre (S a) 0 s'.
+    below a B /\ e = cyc src a /\ R_pre (S a) 0 s'.
   Proof.
     intros [(-> & d & acc & a' & md & -> & HI & Hacc & Ha' & Hm)|(-> & Hle)] Hs.
     - cbn [http_step] in Hs.
       destruct (dec_step k false 0 1 es d) as [d'|e0 d'|e0]; try discriminate.
       destruct e0; try discriminate.
       destruct (filter _ acc); discriminate.
-    - cbn [http_step] in Hs. rewrite match_len_pos in Hs by exact Hlen_pre.
-      destruct (cyc_loop_facts lim pas n a Hlen_pre Hle) as (F1 & F2 & F3).
-      cbn [limit passes cf cfg0] in Hs. fold n in Hs.
-      destruct (nz pas && (pas <=? a / n)) eqn:E1; [discriminate|].
+    - cbn [http_step] in Hs. rewrite match_len_pos in Hs by exact Hlen_src.
+      destruct (cyc_loop_facts lim pas n' a Hlen_src Hle) as (F1 & F2 & F3).
+      cbn [limit passes] in Hs.
+      destruct (nz pas && (pas <=? a / n')) eqn:E1; [discriminate|].
       destruct (nz lim && (lim <=? a)) eqn:E2; [discriminate|].
-      destruct (nth_error es (a mod n)) as [e0|] eqn:Ee; [|discriminate].
+      destruct (nth_error src (a mod n')) as [e0|] eqn:Ee; [|discriminate].
       injection Hs as <- <-. specialize (F3 eq_refl eq_refl).
       split; [exact F3|]. split; [symmetry; apply cyc_mod; exact Ee|].
       right. split; [reflexivity|apply below_le_opt; exact F3].
@@ -1302,19 +1309,19 @@ Section HttpPreload.
       destruct (k_err _ _ _ _ _ _ K _ _ _ _ _ HI Ed) as [(Hc & _)|(HB & He)]; [discriminate|].
       apply bound_load in HB. subst a'.
       destruct He as [(_ & He)| ->]; [congruence|].
-      cbn [chosen cf cfg0] in Hs. rewrite filter_all_chosen in Hs.
-      rewrite Hacc in Hs. unfold n in Hs. rewrite cyc_prefix_full in Hs.
-      rewrite match_nonempty in Hs by exact Hn. discriminate.
-    - cbn [http_step] in Hs. rewrite match_len_pos in Hs by exact Hlen_pre.
-      destruct (cyc_loop_facts lim pas n a Hlen_pre Hle) as (F1 & F2 & F3).
-      cbn [limit passes cf cfg0] in Hs. fold n in Hs.
-      destruct (nz pas && (pas <=? a / n)) eqn:E1.
+      cbn [chosen] in Hs. rewrite Hacc, cyc_prefix_full in Hs.
+      change (filter (fun e => is_chosen (e_tag e) ch) es) with src in Hs.
+      rewrite match_nonempty in Hs by exact Hsrc. discriminate.
+    - cbn [http_step] in Hs. rewrite match_len_pos in Hs by exact Hlen_src.
+      destruct (cyc_loop_facts lim pas n' a Hlen_src Hle) as (F1 & F2 & F3).
+      cbn [limit passes] in Hs.
+      destruct (nz pas && (pas <=? a / n')) eqn:E1.
       { injection Hs as <- <-. split; [apply F1; reflexivity|split; reflexivity]. }
       destruct (nz lim && (lim <=? a)) eqn:E2.
       { injection Hs as <- <-. split; [apply F2; reflexivity|split; reflexivity]. }
-      destruct (nth_error es (a mod n)) as [e0|] eqn:Ee; [discriminate|].
-      exfalso. apply nth_error_None in Ee. pose proof (Nat.mod_upper_bound a n ltac:(pose proof Hlen_pre; lia)).
-      unfold n in *. lia.
+      destruct (nth_error src (a mod n')) as [e0|] eqn:Ee; [discriminate|].
+      exfalso. apply nth_error_None in Ee. pose proof (Nat.mod_upper_bound a n' ltac:(pose proof Hlen_src; lia)).
+      lia.
   Qed.
 
   Lemma pre_cemit a m s e s' :
@@ -1338,9 +1345,9 @@ Section HttpPreload.
       + injection Hs as <- <-. split; [right; right; reflexivity|reflexivity].
       + exfalso. apply bound_load in HB. subst a'.
         destruct He as [(_ & He)| ->]; [congruence|].
-        cbn [chosen cf cfg0] in Hs. rewrite filter_all_chosen in Hs.
-        rewrite Hacc in Hs. unfold n in Hs. rewrite cyc_prefix_full in Hs.
-        rewrite match_nonempty in Hs by exact Hn. discriminate.
+        cbn [chosen] in Hs. rewrite Hacc, cyc_prefix_full in Hs.
+        change (filter (fun e => is_chosen (e_tag e) ch) es) with src in Hs.
+        rewrite match_nonempty in Hs by exact Hsrc. discriminate.
     - cbn [http_step] in Hs. injection Hs as <- <-.
       split; [right; left; reflexivity|reflexivity].
   Qed.
@@ -1353,13 +1360,15 @@ Section HttpPreload.
   Qed.
 End HttpPreload.
 
-Lemma http_preload_c08 k es lim pas cD DI :
-  cD <= 1 -> es <> [] -> contract (dec_step k) es cD 0 1 DI ->
-  c08_spec (http_run k true (cfg0 lim pas) es) es (bound lim pas (length es)) (length es) 4.
+Lemma http_preload_spec k es lim pas cD ch DI :
+  cD <= 1 -> es <> [] -> filter (chosenb ch) es <> [] -> contract (dec_step k) es cD 0 1 DI ->
+  c08_spec (http_run k true {| limit := lim; passes := pas; chosen := ch |} es)
+           (filter (chosenb ch) es) (bound lim pas (length (filter (chosenb ch) es))) (length es) 4.
 Proof.
-  intros HcD Hn K.
-  apply (sim_c08 (http_step k (cfg0 lim pas) es) es (bound lim pas (length es)) 0
-                 (R_pre es lim pas cD DI) (http_init true)
+  intros HcD Hn Hsrc K.
+  apply (sim_c08 (http_step k {| limit := lim; passes := pas; chosen := ch |} es)
+                 (filter (chosenb ch) es) (bound lim pas (length (filter (chosenb ch) es))) 0
+                 (R_pre es lim pas cD DI ch) (http_init true)
                  (length es * (cD + 1) + cD + 2) (length es) 4).
   - intros cc a m s s'. eapply pre_cont; eauto.
   - intros a m s e s'. eapply pre_emit; eauto.
@@ -1368,6 +1377,15 @@ Proof.
   - intros a m s o cl. eapply pre_cstop; eauto.
   - eapply pre_init; eauto.
   - intros len. nia.
+Qed.
+
+Lemma http_preload_c08 k es lim pas cD DI :
+  cD <= 1 -> es <> [] -> contract (dec_step k) es cD 0 1 DI ->
+  c08_spec (http_run k true (cfg0 lim pas) es) es (bound lim pas (length es)) (length es) 4.
+Proof.
+  intros HcD Hn K.
+  pose proof (http_preload_spec k es lim pas cD [] DI HcD Hn) as H.
+  rewrite filter_chosenb_nil in H. apply H; assumption.
 Qed.
 
 (* ---------------------------------------------------------------------------------- *)
